@@ -106,18 +106,25 @@ static void run_config(const Config &cfg, uint64_t seed, bool thorough) {
     std::vector<std::array<size_t, 3>> ops = {{0, 0, cfg.size}};
     if (cfg.size >= 2) { ops.push_back({1, 0, 1}); ops.push_back({1, cfg.size - 1, 1}); ops.push_back({1, 1, cfg.size - 1}); }
     if (cfg.size >= 4) ops.push_back({1, 1, cfg.size - 2});
-    if (thorough || cfg.size <= 8) for (size_t off = 0; off < cfg.size; off++) for (size_t len = 1; off + len <= cfg.size; len++) if (off + len != cfg.size || off != 0) ops.push_back({1, off, len});
+    if ((thorough || cfg.size <= 8) && cfg.size <= 64) for (size_t off = 0; off < cfg.size; off++) for (size_t len = 1; off + len <= cfg.size; len++) if (off + len != cfg.size || off != 0) ops.push_back({1, off, len});
     for (auto &o : ops) {
         Case c{cfg, seed, 0, (int)o[0], o[1], o[2], 0, 0};
         size_t octets, calls; std::vector<size_t> bounds;
         if (!clean_run(c, octets, calls, bounds)) { F(c, "clean-run-failed", "the fault-free operation does not succeed"); continue; }
-        for (long k = 0; k <= (long)octets; k++) {
+        std::set<long> points;
+        if (octets <= 400) for (long k = 0; k <= (long)octets; k++) points.insert(k);
+        else {   // large images: cuts at every write boundary +-1, around 2^8/2^16 multiples, and spread over the rest
+            for (long k : {0L, 1L, 2L, 255L, 256L, 257L, 65535L, 65536L, 65537L, (long)octets / 2, (long)octets - 2, (long)octets - 1, (long)octets}) if (k >= 0 && k <= (long)octets) points.insert(k);
+            for (size_t b : bounds) for (long d : {-1L, 0L, 1L}) if ((long)b + d >= 0 && (long)b + d <= (long)octets) points.insert((long)b + d);
+            for (long k = 0; k <= (long)octets; k += (long)octets / 24 + 1) points.insert(k);
+        }
+        for (long k : points) {
             c.point = k; run_crash(c);
             bool interior = k > 0 && k < (long)octets;
             if (interior) vp::nontrivial(vp::fnv(serc(c)));
             if (vp::want_sample()) vp::sample(serc(c));
         }
-        vp::cls("crash-points", octets + 1);
+        vp::cls("crash-points", points.size());
     }
     // faults in every operation
     std::vector<std::array<size_t, 3>> fops = {{0, 0, cfg.size}, {2, 0, 0}, {3, 0, 0}, {5, 0, 0}};
@@ -126,12 +133,15 @@ static void run_config(const Config &cfg, uint64_t seed, bool thorough) {
         Case c{cfg, seed, 1, (int)o[0], o[1], o[2], 0, 0};
         size_t octets, calls; std::vector<size_t> bounds;
         if (!clean_run(c, octets, calls, bounds)) { F(c, "clean-run-failed", "the fault-free operation does not succeed"); continue; }
-        for (long k = 0; k < (long)calls; k++) for (int kind = 0; kind < 3; kind++) {
+        std::set<long> idxs;
+        if (calls <= 64) for (long k = 0; k < (long)calls; k++) idxs.insert(k);
+        else for (long k : {0L, 1L, 2L, (long)calls / 2, (long)calls - 2, (long)calls - 1}) idxs.insert(k);
+        for (long k : idxs) for (int kind = 0; kind < 5; kind++) {
             c.point = k; c.fkind = kind; run_fault(c);
             if (k > 0) vp::nontrivial(vp::fnv(serc(c)));
             if (vp::want_sample()) vp::sample(serc(c));
         }
-        vp::cls(std::string("fault-points:") + opn[c.op], calls * 3);
+        vp::cls(std::string("fault-points:") + opn[c.op], idxs.size() * 5);
     }
 }
 
@@ -141,7 +151,7 @@ static void run() {
     size_t maxsize = a.thorough() ? 32 : 16;
     vp::stats().rule = vp::fmt("fault enumeration: data size 1..%zu x placement {0,5} x 3 checksums x aux {none,0,1,2,size-1,size+1} ; per configuration every crash point (total octets the medium accepts before "
                                "the cut, i.e. every whole-write prefix and every torn position) of the full store and of partial stores, followed by validate+fetch on a fresh instance; and a single "
-                               "failing / short (n-1) / short (1) medium call at every call index of store, store_part, validate, fetch, fetch_part, reset", maxsize);
+                               "failing / short (n-1, 1, n-2^16, n-2^8) medium call at every call index (sampled for operations with more than 64 medium calls); of store, store_part, validate, fetch, fetch_part, reset; plus data sizes 255..257, 65535..65537, 70000 with sampled crash points", maxsize);
     vp::stats().exhaustive = true;
     uint64_t idx = 0;
     for (size_t size = 1; size <= maxsize; size++)
@@ -154,6 +164,17 @@ static void run() {
                     run_config({size, place, cs, aux, (int)(idx & 1)}, a.seed, a.thorough());
                     if (vp::too_many_failures()) return;
                 }
+            }
+    // data portions and single transfers at the 2^8 / 2^16 boundaries
+    for (size_t size : {(size_t)255, (size_t)256, (size_t)257, (size_t)65535, (size_t)65536, (size_t)65537, (size_t)70000})
+        for (int cs = 0; cs < 3; cs++)
+            for (long aux : {-1L, 256L, 65536L, (long)size, (long)size + 1}) {
+                if (aux > (long)size + 1) continue;
+                if (idx++ % a.nshards != a.shard) continue;
+                if (!a.thorough() && size > 300 && aux < 256) continue;   // octet-wise medium access on 64 KiB images: thorough tier only
+                run_config({size, 0, cs, aux, 0}, a.seed, false);
+                vp::cls("large-image-config");
+                if (vp::too_many_failures()) return;
             }
 }
 static bool replay(const std::string &text) {
